@@ -180,10 +180,29 @@ LengthV(a) == CASE a.t = "any" -> AnyV
                 [] OTHER -> NothingV
 
 (* ------------------------------------------------------------------ sub-paths inside scripts *)
-\* all values selected by the fragments from the sequence of start values (child, index, wildcard)
+(* Fragments of an operand path:  [f |-> "child", k], [f |-> "nth", i], [f |-> "wild"],                                  *)
+(*   [f |-> "union", u |-> <<[is |-> TRUE, k |-> bytes] | [is |-> FALSE, i |-> n]>>]  (listed members that exist),     *)
+(*   [f |-> "slice", s |-> <<start, end>> | <<start, end, step>>]  (end exclusive),                                     *)
+(*   [f |-> "desc"]  (the node and every node below it; the fragment behind it is applied to each of them),             *)
+(*   [f |-> "filter", e |-> equation AST]  (the members of an array / object for which the nested script is true).     *)
+(* All values selected by the fragments from the sequence of start values, as a sequence (duplicates and order are      *)
+(* harmless: "a multi-valued script is true if any combination is true").                                               *)
+(* ALLOW (the result is the single model value any = open): a slice outside the region in which every reading of the    *)
+(* slice arguments agrees (0 <= start <= end <= length, step >= 1; C05 judges the rest), a slice of an object, a        *)
+(* trailing bare descent (C05: each start node may or may not be reported), a union member or index beyond TLC's        *)
+(* integers, a nested filter whose own verdict is open or that reads `$` (the statement does not say what `$` denotes   *)
+(* inside a filter nested in an operand path), any of these applied to a list given by description.                     *)
 RECURSIVE Flat(_)
 Flat(ss) == IF ss = <<>> THEN <<>> ELSE Head(ss) \o Flat(Tail(ss))
+RECURSIVE Vals(_, _, _), Expect(_, _, _), StepFrag(_, _), Walk(_, _), DescAll(_)
+DescAll(v) == <<v>> \o (IF v.t \in {"arr", "obj"} THEN Flat([i \in 1..Len(v.v) |-> DescAll(v.v[i])]) ELSE <<>>)
+UnionPick(u, v) ==
+    IF u.is THEN (IF v.t = "obj" /\ \E i \in 1..Len(v.k) : v.k[i] = u.k THEN <<v.v[CHOOSE i \in 1..Len(v.k) : v.k[i] = u.k]>> ELSE <<>>)
+    ELSE IF v.t = "arr" THEN LET n == Len(v.v) i == IF u.i < 0 THEN n + u.i ELSE u.i IN IF 0 <= i /\ i < n THEN <<v.v[i + 1]>> ELSE <<>>
+    ELSE <<>>
 StepFrag(f, v) ==
+    IF v.t = "any" THEN <<AnyV>>
+    ELSE
     CASE f.f = "child" -> IF v.t = "obj" /\ \E i \in 1..Len(v.k) : v.k[i] = f.k
                           THEN <<v.v[CHOOSE i \in 1..Len(v.k) : v.k[i] = f.k]>> ELSE <<>>
       [] f.f = "nth" -> IF v.t = "arr" THEN LET n == Len(v.v) i == IF f.i < 0 THEN n + f.i ELSE f.i IN
@@ -196,15 +215,30 @@ StepFrag(f, v) ==
                          \* combination is true" only the distinct members matter
                          ELSE IF v.t = "biglist" THEN (IF v.n = 1 THEN <<v.v>> ELSE <<v.fill, v.v>>)
                          ELSE <<>>
-      [] OTHER -> <<>>
-RECURSIVE Walk(_, _)
+      [] f.f = "union" -> IF v.t = "biglist" \/ \E j \in 1..Len(f.u) : "big" \in DOMAIN f.u[j] THEN <<AnyV>>
+                          ELSE Flat([j \in 1..Len(f.u) |-> UnionPick(f.u[j], v)])
+      [] f.f = "slice" -> IF v.t \notin {"arr", "obj", "biglist"} THEN <<>>
+                          ELSE IF v.t # "arr" \/ "bs" \in DOMAIN f \/ Len(f.s) \notin {2, 3} THEN <<AnyV>>
+                          ELSE LET n == Len(v.v) s == f.s[1] e == f.s[2] st == IF Len(f.s) = 3 THEN f.s[3] ELSE 1 IN
+                               IF ~(0 <= s /\ s <= e /\ e <= n /\ st >= 1) THEN <<AnyV>>
+                               ELSE LET ix == SelectSeq([j \in 1..n |-> j - 1], LAMBDA i : s <= i /\ i < e /\ ((i - s) % st) = 0) IN
+                                    [j \in 1..Len(ix) |-> v.v[ix[j] + 1]]
+      [] f.f = "desc" -> IF v.t = "biglist" THEN <<AnyV>> ELSE DescAll(v)
+      [] f.f = "filter" -> IF v.t = "biglist" THEN <<AnyV>>
+                           ELSE IF v.t \notin {"arr", "obj"} THEN <<>>
+                           \* `$` inside the nested script is open: its root is the model value any
+                           ELSE LET vd == [j \in 1..Len(v.v) |-> Expect(f.e, v.v[j], AnyV)] IN
+                                IF \E j \in 1..Len(vd) : vd[j] = "ANY" THEN <<AnyV>>
+                                ELSE LET ix == SelectSeq([j \in 1..Len(vd) |-> j], LAMBDA j : vd[j] = "T") IN [j \in 1..Len(ix) |-> v.v[ix[j]]]
+      [] OTHER -> <<AnyV>>
 Walk(fr, vs) == IF fr = <<>> THEN vs ELSE Walk(Tail(fr), Flat([i \in 1..Len(vs) |-> StepFrag(Head(fr), vs[i])]))
-PathGet(p, elem, root) == Walk(p.fr, <<IF p.root = "@" THEN elem ELSE root>>)
+PathGet(p, elem, root) == IF Len(p.fr) > 0 /\ p.fr[Len(p.fr)].f = "desc" THEN <<AnyV>>
+                          ELSE Walk(p.fr, <<IF p.root = "@" THEN elem ELSE root>>)
+HasAny(vs) == \E i \in 1..Len(vs) : vs[i].t = "any"
 
 (* ------------------------------------------------------------------ evaluation *)
 \* Vals: the results of an expression over every combination of the values of its multi-valued sub-paths
 \* (a sequence, duplicates harmless).  A sub-path that selects nothing is Nothing.
-RECURSIVE Vals(_, _, _)
 Vals(e, elem, root) ==
     CASE e.op = "const" -> <<e.v>>
       [] e.op = "path" -> LET vs == PathGet(e, elem, root) IN IF Len(vs) = 0 THEN <<NothingV>> ELSE vs
@@ -212,7 +246,8 @@ Vals(e, elem, root) ==
       [] e.op = "length" -> LET L == Vals(e.l, elem, root) IN [i \in 1..Len(L) |-> LengthV(L[i])]
       \* count(path): the number of nodes the path selects.  ALLOW: a $-rooted path (the statement does not say
       \* what $ means inside count)
-      [] e.op = "count" -> IF e.l.op = "path" /\ e.l.root = "@" THEN <<IntV(Len(PathGet(e.l, elem, root)))>> ELSE <<AnyV>>
+      [] e.op = "count" -> IF e.l.op = "path" /\ e.l.root = "@" /\ ~HasAny(PathGet(e.l, elem, root))
+                           THEN <<IntV(Len(PathGet(e.l, elem, root)))>> ELSE <<AnyV>>
       [] OTHER -> LET L == Vals(e.l, elem, root) R == Vals(e.r, elem, root) IN
                   [n \in 1..(Len(L) * Len(R)) |-> Apply(e.op, L[((n - 1) \div Len(R)) + 1], R[((n - 1) % Len(R)) + 1])]
 
@@ -231,7 +266,7 @@ Match(e, v) == Expect(e, v, v)
 
 (* ------------------------------------------------------------------ locus of a cell *)
 Form(e) == CASE e.op = "const" -> "const"
-             [] e.op = "path" -> IF \E i \in 1..Len(e.fr) : e.fr[i].f = "wild" THEN e.root \o ".*"
+             [] e.op = "path" -> IF \E i \in 1..Len(e.fr) : e.fr[i].f \in {"wild", "union", "slice", "desc", "filter"} THEN e.root \o ".*"
                                  ELSE IF Len(e.fr) = 0 THEN e.root ELSE e.root \o ".k"
              [] OTHER -> e.op
 KindsOf(vs) == IF Len(vs) = 1 THEN vs[1].t ELSE "multi"
